@@ -202,7 +202,7 @@ PROPS["C19"] = {
     "quick": {"shards": 8, "budget_s": 15, "watchdog_s": 600},
     "thorough": {"shards": 16, "budget_s": 300, "watchdog_s": 3000},
     "floor": {"quick": 3000, "thorough": 20000},
-    "require_counters": {"quick": {"A_calls": 3000, "A_calls_that_changed_the_tree": 40, "B_histories_with_overlapping_writers": 300, "B_successful_writes": 10000, "B_conflicts": 5000, "B_bystander_operations": 20000},
+    "require_counters": {"quick": {"B_files_replaced_by_delete_and_create": 300, "A_calls": 3000, "A_calls_that_changed_the_tree": 40, "B_histories_with_overlapping_writers": 300, "B_successful_writes": 10000, "B_conflicts": 5000, "B_bystander_operations": 20000},
                          "thorough": {"B_histories_with_overlapping_writers": 10000}},
     "rule": "A: 19 operations {list, tree, open, create file/dir, write, rename from/to, delete, search, format, diagnostics, symbols, workspace symbols, rename_symbol without / with an unsaved buffer, definition, references, hover} x ~57 path strings "
             "(.., absolute, ./, //, backslashes, hidden, through a directory symlink / file symlink / symlink cycle, NUL, unicode look-alikes, trailing dots/spaces, 4 kB long, "
@@ -215,7 +215,7 @@ PROPS["C19"] = {
                   "replies for text and names of outside and hidden files; only non-hidden paths under the project may change, and only for an editor session with writing enabled. "
                   "Lost updates are decided offline: successes ordered by returned version must each be based on the content written by the previous success, no two share a version, "
                   "and disk and a fresh open_source equal the last success.",
-    "level_note": "Round d: the sentinel tree has a link to a hidden directory of the project itself; the part B bystander renames prefix-sharing directories away and back. Not modelled: delete + re-create of a tracked file by a writer (the version counter restarts at 1 - reported by a sub-agent, see DESIGN 7.4). set_active_project / browse_directory are project-selection features outside the listed file operations and are not called. Session expiry uses hook H4 (injected clock).",
+    "level_note": "Round d: the sentinel tree has a link to a hidden directory of the project itself; the part B bystander renames prefix-sharing directories away and back. In a third of the part B histories a writer sometimes replaces a tracked file by delete + create; versions restart there, so those files are judged by a necessary condition over call / return instants alone (the content a successful write was based on must not have been replaced by an operation lying entirely between its producer and the write; the disk must hold the content of an operation not followed by another). set_active_project / browse_directory are project-selection features outside the listed file operations and are not called. Session expiry uses hook H4 (injected clock).",
     "assumptions": ["the snapshot walker and the marker strings are the trusted base", "writers re-open after every attempt (well-behaved optimistic clients)"],
     "design_ref": "DESIGN.md section 8 (as built; plan in section 3), C19",
 }
